@@ -7,5 +7,5 @@ CONSTANTS N = 3
  UseSenderIdx = TRUE
  InnerProofPolicy = "reject"
  VCBatchPolicy = "none"
-INVARIANTS Safety
+INVARIANTS TypeOK OnlyValidEnter ValidEnters PeerAllOrNothing
 CHECK_DEADLOCK FALSE
